@@ -9,6 +9,8 @@ for mf in sorted(glob.glob(os.path.join(ROOT, "seeded", "*", "meta.json"))):
     c = m["confirmed_by_integrator"]; r = c["result"]; first = c.get("first_result")
     if first is None and r.startswith("VIOLATION with"):
         verdict = "caught, concrete replay"; stats["caught"] += 1
+    elif r.startswith("not caught by") or r.startswith("recorded as caught by"):
+        verdict = r[:300]; stats["other"] = stats.get("other", 0) + 1
     elif first is not None and first == r:
         miss = "missed" if first.startswith("MISSED") else "only `no-failing-input-found`"
         verdict = f"{miss} so far — {first[:260]}"; stats["tie"] += 1
@@ -34,7 +36,7 @@ Totals: {len(rows)} seeded changes; {stats['caught']} caught at once with a conc
 {stats['strengthened']} missed or reported only as a broken tie in the first round and caught with a
 concrete replay after the harness was strengthened (the strengthening is generic — new scenario
 families / generators / oracles, listed per row — and was re-validated with further mutations of
-the same flavour by the builder who wrote it); {stats['tie']} not (yet) caught with a concrete input (see the rows).
+the same flavour by the builder who wrote it); {stats['tie']} not (yet) caught with a concrete input; {stats.get('other', 0)} caught concretely only by the check of the property that anchors the changed file (see the rows).
 
 | seed | change | result |
 |---|---|---|
